@@ -516,4 +516,135 @@ theorem format_render_eq (ha va : Option String) (width height cols lines : Nat)
 example : formatRender (some "<") 3 (some "^") 2 1 1 [.glyph .upper] =
     [.glyph .upper, .glyph .blank, .glyph .blank, .lf, .glyph .blank, .glyph .blank, .glyph .blank] := by decide
 
+/-! ## Part 4 — every entry point of the old API that pads an image render -/
+
+/-- BOX THEOREM FOR THE OLD API: `_format_render` of a `cols × lines` render whose lines meet the
+    C01 contract, written where the `max(width, cols) × max(height, lines)` box fits, changes
+    exactly the cells of that box, covers all of them, does not scroll or wrap and ends on the
+    box's last line. (`format(image, spec)`, `f"{image:spec}"`, `draw()` and every `ImageIterator`
+    frame are `_format_render` outputs.) -/
+theorem format_render_block (K : TermKind → Prop) (ha va : Option String) (width height cols lines : Nat)
+    (m : SgrMode) (S : Nat → Nat → Prop) (ls : List (List Tok)) (hlen : ls.length = lines) (hh : 0 < lines)
+    (hw : 0 < cols) (hlf : ∀ ln ∈ ls, Tok.lf ∉ ln)
+    (hOK : ∀ i (hi : i < ls.length), LineOK K cols lines i m (S i) ls[i])
+    (hS : ∀ di, di < lines → ∃ k, k < lines ∧ S k di)
+    (t : Term) (r0 x : Nat) (hK : K t.kind) (hlm : t.lm = x)
+    (hR : Ready t r0 x (max width cols) (max height lines) 0) :
+    BlockEffect t (t.run (formatRender ha width va height cols lines (joinLines ls))) r0 x
+      (max width cols) (max height lines) .keepsDefault := by
+  obtain ⟨e1, e2⟩ := fmtDims_sum ha va width height cols lines
+  rw [formatRender_eq_W, ← e1, ← padToks_eq_W, ← e2]
+  rw [← e1, ← e2] at hR
+  exact (pad_block K (.glyph .blank) _ _ _ _ cols lines m S ls hlen hh hw hlf hOK t r0 x hK hlm hR).2
+    (by simp) hS
+
+/-- `draw(h_align, pad_width, v_align, pad_height)` (not animated) writes `_format_render`'s output
+    for the checked arguments followed by `CSI m` and a newline, and only for a padding width
+    within the terminal width -/
+theorem draw_output_eq (h v : PyArg) (w ht : Option Int) (tw th cols lines : Nat) (render out : List Tok)
+    (hd : drawOutput h w v ht tw th cols lines render = .ok out) :
+    ∃ ha wd va hg wi, checkFormatting h w v ht tw th = .ok (ha, wd, va, hg) ∧ w = some wi ∧ wi ≤ (tw : Int) ∧
+      out = formatRender ha wd va hg cols lines render ++ [Tok.sgr0, Tok.lf] := by
+  unfold drawOutput at hd
+  cases hc : checkFormatting h w v ht tw th with
+  | error e => rw [hc] at hd; cases hd
+  | ok r =>
+    obtain ⟨ha, wd, va, hg⟩ := r
+    rw [hc] at hd
+    cases w with
+    | none => cases hd
+    | some wi =>
+      simp only [bind, Except.bind] at hd
+      by_cases hgt : wi > (tw : Int)
+      · simp [hgt] at hd
+      · simp only [hgt, if_false] at hd
+        injection hd with hd
+        exact ⟨ha, wd, va, hg, wi, rfl, rfl, by omega, hd.symm⟩
+
+/-- ITERATOR: the frame yielded by the `k`-th `next()` of an `ImageIterator` (any repeat count,
+    cached or not, any sequence of image sizes) is `_format_render`, **for the size the image has
+    at that `next()`**, of a render of the same frame number made at a `next()` `j ≤ k` at which
+    the image had that same size (`j = k` unless the frame comes from the cache) — i.e. it is
+    `AlignedPadding(width, height, h, v, " ").pad(render, current size)`. A frame formatted for a
+    size read earlier (hoisted out of the loop) does not satisfy this. -/
+theorem iter_frames_padded (f : Fmt) (rep : Int) (c : CachedArg) (nFrames : Nat) (steps : List IterStep)
+    (k : Nat) (fr : List Tok) (h : (iterFrames f rep c nFrames steps)[k]? = some (some fr)) :
+    ∃ j sj sk, j ≤ k ∧ j % nFrames = k % nFrames ∧ steps[j]? = some sj ∧ steps[k]? = some sk ∧
+      (sj.cols, sj.lines) = (sk.cols, sk.lines) ∧
+      fr = formatRender f.hAlign f.width f.vAlign f.height sk.cols sk.lines sj.render ∧
+      (0 < f.width → 0 < f.height →
+        (Padding.aligned ⟨f.width, f.height, hAlignOf f.hAlign, vAlignOf f.vAlign, .glyph .blank⟩).pad
+          sj.render sk.cols sk.lines = .ok fr) := by
+  unfold iterFrames at h
+  obtain ⟨j, sj, sk, h1, h2, h3, h4, h5, h6⟩ :=
+    iterGo_spec f rep _ nFrames steps steps 0 _ (by simp) (cacheInv_init f nFrames steps) k fr h
+  simp only [Nat.zero_add] at h1 h2 h4
+  have hfr : fr = formatRender f.hAlign f.width f.vAlign f.height sk.cols sk.lines sj.render := by
+    simp only [Prod.mk.injEq] at h5
+    rw [h6, Fmt.frame, h5.1, h5.2]
+  exact ⟨j, sj, sk, h1, h2, h3, h4, h5, hfr,
+    fun hw hh => by rw [hfr]; exact format_render_eq _ _ _ _ _ _ _ hw hh⟩
+
+/-- ITERATOR FRAMES ON THE TERMINAL: if every render the image produces (for its size at that
+    moment) meets the C01 contract, every yielded frame occupies exactly the
+    `max(width, cols) × max(height, lines)` box for the image's size at that `next()` -/
+theorem iter_frame_block (f : Fmt) (rep : Int) (c : CachedArg) (nFrames : Nat) (steps : List IterStep)
+    (k : Nat) (fr : List Tok) (h : (iterFrames f rep c nFrames steps)[k]? = some (some fr))
+    (K : TermKind → Prop) (m : SgrMode)
+    (hren : ∀ (j : Nat) (sj : IterStep), steps[j]? = some sj → ∃ (ls : List (List Tok)) (S : Nat → Nat → Prop),
+      sj.render = joinLines ls ∧ ls.length = sj.lines ∧ 0 < sj.lines ∧ 0 < sj.cols ∧ (∀ ln ∈ ls, Tok.lf ∉ ln) ∧
+      (∀ i (hi : i < ls.length), LineOK K sj.cols sj.lines i m (S i) ls[i]) ∧
+      (∀ di, di < sj.lines → ∃ k', k' < sj.lines ∧ S k' di)) :
+    ∃ sk, steps[k]? = some sk ∧ ∀ (t : Term) (r0 x : Nat), K t.kind → t.lm = x →
+      Ready t r0 x (max f.width sk.cols) (max f.height sk.lines) 0 →
+      BlockEffect t (t.run fr) r0 x (max f.width sk.cols) (max f.height sk.lines) .keepsDefault := by
+  obtain ⟨j, sj, sk, _, _, h3, h4, h5, h6, _⟩ := iter_frames_padded f rep c nFrames steps k fr h
+  obtain ⟨ls, S, g1, g2, g3, g4, g5, g6, g7⟩ := hren j sj h3
+  simp only [Prod.mk.injEq] at h5
+  rw [h5.2] at g2 g3 g7
+  rw [h5.1] at g4
+  rw [h5.1, h5.2] at g6
+  refine ⟨sk, h4, fun t r0 x hK hlm hR => ?_⟩
+  rw [h6, g1]
+  exact format_render_block K _ _ _ _ _ _ m S ls g2 g3 g4 g5 g6 g7 t r0 x hK hlm hR
+
+/-- ANIMATED `draw()`: the first frame, then `\r`, `cursor_up(max(pad_height, lines) − 1)` and the
+    next frame, …: if every formatted frame occupies the `w × max(pad_height, lines)` box drawn from
+    its top-left corner at column 0, the whole animation changes only cells of that one box and
+    ends on its last line (going up `pad_height − 1` lines instead does not have this property). -/
+theorem draw_animated_in_box (K : TermKind → Prop) (padHeight lines w : Nat) (frames : List (List Tok))
+    (hne : frames ≠ []) (hw : 0 < w) (hl : 0 < max padHeight lines)
+    (hok : ∀ fr ∈ frames, FrameOK K w (max padHeight lines) fr)
+    (t : Term) (r0 : Nat) (hK : K t.kind) (hlm : t.lm = 0) (hR : Ready t r0 0 w (max padHeight lines) 0) :
+    let t' := t.run (animBody padHeight lines frames)
+    Frame t t' ∧ t'.row = r0 + max padHeight lines - 1 ∧
+      ((t.fg = none ∧ t.bg = none) → (t'.fg = none ∧ t'.bg = none)) ∧
+      ∃ new, t'.log = new ++ t.log ∧ ∀ wr ∈ new, InRect r0 0 w (max padHeight lines) wr := by
+  intro t'
+  cases frames with
+  | nil => exact absurd rfl hne
+  | cons first rest =>
+    have e1 := hok first (by simp) t r0 hK hlm hR
+    simp only [t', animBody]
+    rw [Term.run_append]
+    generalize t.run first = t1 at e1
+    have f1 := e1.frame
+    obtain ⟨f2, r2, s2, new2, hn2, hin2⟩ := later_frames K w (max padHeight lines) hl hw rest
+      (fun fr h => hok fr (by simp [h])) t1 r0 (by rw [f1.kind]; exact hK) (by rw [f1.lm]; exact hlm) e1.row
+      (by rw [f1.W]; have := hR.fitW; omega) (by rw [f1.top]; exact hR.visTop)
+      (by rw [f1.top, f1.H]; exact hR.visBot)
+    obtain ⟨new1, hn1, hin1, _⟩ := e1.log
+    refine ⟨f1.trans f2, r2, fun hd => s2 (e1.sgr hd), new2 ++ new1, by rw [hn2, hn1, List.append_assoc], ?_⟩
+    intro wr hwr
+    rcases List.mem_append.mp hwr with h' | h'
+    · exact hin2 wr h'
+    · exact hin1 wr h'
+
+/-- non-vacuity: a cached two-pass iteration over 1 frame whose size changes from 1×1 to 2×1
+    between the passes re-formats for the new size -/
+example : iterFrames ⟨some "<", 3, some "^", 1⟩ 2 (.bool true) 1
+    [⟨1, 1, [.glyph .upper]⟩, ⟨2, 1, [.glyph .upper, .glyph .lower]⟩] =
+    [some [.glyph .upper, .glyph .blank, .glyph .blank], some [.glyph .upper, .glyph .lower, .glyph .blank]] := by
+  decide
+
 end TIV.C05
